@@ -9,5 +9,5 @@ if ! git -C "$wt" apply "$patch"; then echo "PATCH-DOES-NOT-APPLY"; git -C /repo
 cd /verif
 NIPY_VERIF_REPO="$wt" VERIF_EVIDENCE_DIR=/tmp/seed-evidence ./check "$id" "$tier" 2>&1 | grep -E "^VIOLATION|^KNOWN|^# (oracle|tie|C[0-9]+ tier)" | cut -c1-400
 rc=${PIPESTATUS[0]}
-git -C /repo worktree remove --force "$wt"
+git -C /repo worktree remove --force "$wt"; (cd /verif && /venv/bin/python -c "from harness.setup import regenerate; regenerate()" >/dev/null 2>&1)
 echo "exit=$rc"
